@@ -1,0 +1,87 @@
+//! Verification hooks (cargo feature `verif-hooks`, off by default).
+//!
+//! `sched_point(site)` marks a position between two consecutive accesses to
+//! shared state. It is a no-op unless a controller has been installed by a
+//! deterministic-simulation harness, which then decides which thread runs next.
+//!
+//! [`RwLock`] is a thin wrapper over `parking_lot::RwLock` with the same guard
+//! types. Without a controller `read()`/`write()` are the wrapped calls. Under a
+//! controller they never sleep in the kernel: they `try_*` and, when the lock is
+//! held, report `lock_blocked` to the controller (which runs another thread) and
+//! retry. That makes scheduling points inside regions that hold one of these
+//! locks safe for a controller that lets exactly one thread run at a time.
+
+use std::sync::atomic::{AtomicBool, Ordering};
+use std::sync::Arc;
+
+/// Receives every scheduling point reached by any thread.
+pub trait SchedController: Send + Sync {
+    /// Called with the static name of the site; may block the calling thread.
+    fn sched_point(&self, site: &'static str);
+    /// The calling thread could not take a lock; it will retry when this returns.
+    fn lock_blocked(&self, site: &'static str);
+}
+
+static INSTALLED: AtomicBool = AtomicBool::new(false);
+static CONTROLLER: std::sync::RwLock<Option<Arc<dyn SchedController>>> =
+    std::sync::RwLock::new(None);
+
+/// Install (or, with `None`, remove) the process-wide controller.
+pub fn install_controller(controller: Option<Arc<dyn SchedController>>) {
+    if let Ok(mut slot) = CONTROLLER.write() {
+        INSTALLED.store(controller.is_some(), Ordering::SeqCst);
+        *slot = controller;
+    }
+}
+
+fn controller() -> Option<Arc<dyn SchedController>> {
+    if !INSTALLED.load(Ordering::Relaxed) {
+        return None;
+    }
+    CONTROLLER.read().ok().and_then(|slot| slot.clone())
+}
+
+/// A scheduling point. Does nothing when no controller is installed.
+#[inline]
+pub fn sched_point(site: &'static str) {
+    if let Some(controller) = controller() {
+        controller.sched_point(site);
+    }
+}
+
+/// `parking_lot::RwLock` that cooperates with an installed controller.
+#[derive(Debug, Default)]
+pub struct RwLock<T>(parking_lot::RwLock<T>);
+
+impl<T> RwLock<T> {
+    /// See `parking_lot::RwLock::new`.
+    pub const fn new(value: T) -> Self {
+        Self(parking_lot::RwLock::new(value))
+    }
+
+    /// See `parking_lot::RwLock::read`.
+    pub fn read(&self) -> parking_lot::RwLockReadGuard<'_, T> {
+        let Some(controller) = controller() else {
+            return self.0.read();
+        };
+        loop {
+            if let Some(guard) = self.0.try_read() {
+                return guard;
+            }
+            controller.lock_blocked("rwlock.read");
+        }
+    }
+
+    /// See `parking_lot::RwLock::write`.
+    pub fn write(&self) -> parking_lot::RwLockWriteGuard<'_, T> {
+        let Some(controller) = controller() else {
+            return self.0.write();
+        };
+        loop {
+            if let Some(guard) = self.0.try_write() {
+                return guard;
+            }
+            controller.lock_blocked("rwlock.write");
+        }
+    }
+}
